@@ -88,6 +88,20 @@ CHECKS["C11"] = dict(
         "2-D machinery of C14/C15.",
    ref="§6 C11")
 
+CHECKS["C01"] = dict(
+   technique="contract-based deductive verification: fvm1d.rhs executed symbolically from the ast (symbolic ncell, abstract "
+             "monotone mesh); numflux through its contract (pointwise/consistent/wall, opaque result arrays + on-demand "
+             "instances); sum-induction (telescoping) lemma; z3",
+   text="Proof for all cell data, all strictly increasing face distributions, symbolic number of cells, every 1-D model x "
+        "reconstruction (all limiters) x boundary pair {periodic, sym, dirichlet, inlet/outlet}: per-cell flux balance "
+        "res*vol = -(F[i+1]-F[i]); the volume integral of every conserved variable changes by F[0]-F[n] only; it is "
+        "invariant for periodic closure (both end faces see the same states) and, for mass and energy/depth, between two "
+        "slip walls; every registered flux body is pointwise (the contract's frame). Integrator part: see C05/C06 normal forms.",
+   note=TB + "; mesh contract (C20) as hypothesis; flux contract clauses proved in C02/C16; floating-point intermediates "
+        "assumed finite (no safety obligations here: unlimited reconstructions may give inadmissible face states); 2-D "
+        "operator pending the 2-D loop machinery.",
+   ref="§6 C01")
+
 NA = {
  "C04": "convergence of a solve at the design order under mesh refinement is a limit statement over a family of meshes "
         "(and an empirical one for Riemann problems; the reference solutions wrap the external aerokit): no pre/postcondition "
